@@ -14,7 +14,6 @@ import (
 
 	"github.com/digitalocean/firebolt/metrics"
 
-	"fbverif/e2"
 	"fbverif/sx"
 )
 
@@ -23,9 +22,8 @@ type engine struct {
 	run func(in sx.Tree) sx.Tree
 }
 
-var engines = map[string]engine{
-	"e2": {e2.Gen, e2.Run},
-}
+// engines is filled by the reg_<engine>.go files of this package
+var engines = map[string]engine{}
 
 func main() {
 	if len(os.Args) < 3 {
